@@ -18,7 +18,7 @@ RULE = (
     'limits).'
 )
 ASSUMPTIONS = ['FITPACK\'s interpolating cubic spline has its breakpoints at data knots only, so 5-point Gauss-Legendre per data interval is exact']
-SIZES = {'quick': dict(sets=500, pairs=40), 'thorough': dict(sets=40000, pairs=60)}
+SIZES = {'quick': dict(sets=2000, pairs=40), 'thorough': dict(sets=40000, pairs=60)}
 REQUIRED = {
     tier: {
         'knot-values-checked': 2000,
